@@ -7,7 +7,8 @@ ROOT="$(cd "$(dirname "$0")/.." && pwd)"
 PATCH="$(realpath "$1")"; shift
 W=$(mktemp -d /tmp/pjrpc-mut.XXXXXX)
 rmdir "$W"
-git -C /repo worktree add --detach -q "$W" HEAD || exit 2
+for try in 1 2 3 4 5; do git -C /repo worktree add --detach -q "$W" HEAD 2>/dev/null && break; sleep $((try * 2)); done   # other runs may hold the worktree lock
+[ -d "$W" ] || exit 2
 trap 'git -C /repo worktree remove --force "$W" >/dev/null 2>&1; rm -rf "$W"' EXIT
 if ! git -C "$W" apply "$PATCH"; then echo "PATCH DOES NOT APPLY: $PATCH"; exit 2; fi
 for id in "$@"; do
